@@ -159,6 +159,9 @@ func (fc *FnCtx) applyHook(h *Hook, env *Env, what string, in ssa.Instruction, s
 	for _, u := range us {
 		st.Gh[u.name] = fc.vc.sc.define("gh_"+u.name, fc.eng.ghostSort(u.name), u.t)
 	}
+	for _, u := range h.Uses {
+		fc.useLemma(u, env)
+	}
 }
 
 // storeHooks runs hooks/guards attached to stores of a struct field.
@@ -199,6 +202,33 @@ func (fc *FnCtx) fieldHooks(kind string, fa *ssa.FieldAddr, args []ssa.Value, in
 			}
 		}
 		fc.applyHook(h, env, name, in, st)
+	}
+}
+
+// elemStoreHooks runs hooks attached to stores into slice / array elements
+// (`hook elemstore <elem type>(s, i, v)`: s the slice or array pointer indexed,
+// i the index, v the stored value), before the store takes effect.
+func (fc *FnCtx) elemStoreHooks(in *ssa.Store, st *State) {
+	if len(fc.eng.cs.Hooks) == 0 {
+		return
+	}
+	ia, ok := in.Addr.(*ssa.IndexAddr)
+	if !ok {
+		return
+	}
+	name := leafTypeName(in.Val.Type())
+	for _, h := range fc.eng.cs.Hooks {
+		if h.Kind != "elemstore" || h.Pattern != name || !fc.hookActive(h) {
+			continue
+		}
+		env := fc.root().env(st, fc.root().old)
+		args := []ssa.Value{ia.X, ia.Index, in.Val}
+		for i, p := range h.Params {
+			if i < len(args) && p != "_" {
+				env.vars[p] = fc.val(args[i])
+			}
+		}
+		fc.applyHook(h, env, "store into []"+name, in, st)
 	}
 }
 
